@@ -455,7 +455,15 @@ func (v *vc) intrinsic(fr *frame, st *state, instr ssa.Instruction, name string,
 		return true
 	case "(time.Time).Truncate":
 		trust()
-		set(v.define("ttrunc", "Time", fmt.Sprintf("(ite (<= %s 0) %s (mk_time (- (nanos %s) (mod (nanos %s) %s))))", args[1], args[0], args[0], args[0], args[1])))
+		if _, isConst := c.Args[1].(*ssa.Const); isConst {
+			set(v.define("ttrunc", "Time", fmt.Sprintf("(ite (<= %s 0) %s (mk_time (- (nanos %s) (mod (nanos %s) %s))))", args[1], args[0], args[0], args[0], args[1])))
+			return true
+		}
+		// variable duration: keep the remainder abstract (0 <= rem < d) so the solvers stay linear
+		rem := v.fresh("trunc.rem")
+		v.decl(rem, "Int")
+		v.fact(st, fmt.Sprintf("(=> (> %s 0) (and (<= 0 %s) (< %s %s)))", args[1], rem, rem, args[1]))
+		set(v.define("ttrunc", "Time", fmt.Sprintf("(ite (<= %s 0) %s (mk_time (- (nanos %s) %s)))", args[1], args[0], args[0], rem)))
 		return true
 	case "time.Since":
 		trust()
